@@ -1,29 +1,30 @@
 #!/bin/bash
 # usage: confirm_seed.sh <seed-dir> : confirms a seeded change in a scratch worktree of /repo HEAD
-# (demo passes on clean tree, fails with patch; full suite with patch has the baseline pass set)
+# (demo passes on clean tree, fails with patch; full suite with patch has the baseline pass set).
+# The full-suite run takes a lock so that concurrent confirmations do not collide on fixed UDP ports.
 set -u
 export GOFLAGS=-mod=mod GOPROXY=off GOSUMDB=off GOTOOLCHAIN=local
 d=$(readlink -f "$1"); name=$(basename "$d")
 wt=/tmp/confirm-$name
 git -C /repo worktree remove --force $wt >/dev/null 2>&1
 git -C /repo worktree add -q --detach $wt HEAD || exit 2
-trap 'git -C /repo worktree remove --force $wt >/dev/null 2>&1' EXIT
+trap 'git -C /repo worktree remove --force $wt >/dev/null 2>&1; rm -rf $wt' EXIT
 cd $wt
-# where does the demo go?  default: repo root; a comment "copy to <dir>" may say otherwise
-dest=.
-if grep -qiE "copy (it )?(in)?to .*(ringbuffer|packets|ljh|off|asyncbufio|getbytes|lancero)/" "$d/demo_test.go" 2>/dev/null; then
-  dest=$(grep -oiE "(ringbuffer|packets|ljh|off|asyncbufio|getbytes|lancero)/" "$d/demo_test.go" | head -1)
-fi
+pk=$(grep -m1 -E '^package ' "$d/demo_test.go" | awk '{print $2}' | sed 's/_test$//')
+case "$pk" in dastard) dest=. ;; *) dest=$pk ;; esac
 [ -n "${DEMO_DEST:-}" ] && dest=$DEMO_DEST
 cp "$d/demo_test.go" $dest/zz_seed_demo_test.go
 pkg=./$dest
-run_demo() { go test -vet=off -count=1 -timeout 120s -run 'Seed|Demo|C[0-9][0-9]' $pkg > /tmp/confirm-$name.demo.$1.log 2>&1; echo $?; }
+run_demo() { HOME=/tmp/confirm-home-$name go test -vet=off -count=1 -timeout 180s -run 'Seed|Demo|C[0-9][0-9]' $pkg > /tmp/confirm-$name.demo.$1.log 2>&1; echo $?; }
+mkdir -p /tmp/confirm-home-$name
 clean=$(run_demo clean)
 if ! git apply "$d/patch.diff"; then echo "$name: PATCH DOES NOT APPLY"; exit 1; fi
+rm -f $dest/zz_seed_demo_test.go
 go build ./... > /tmp/confirm-$name.build.log 2>&1 || { echo "$name: DOES NOT BUILD"; exit 1; }
+cp "$d/demo_test.go" $dest/zz_seed_demo_test.go
 patched=$(run_demo patched)
 rm -f $dest/zz_seed_demo_test.go
-go test -vet=off -count=1 -timeout 25m -json ./... 2>/dev/null | python3 -c "
+flock /tmp/confirm-suite.lock bash -c "HOME=/tmp/confirm-home-$name go test -vet=off -count=1 -timeout 25m -json ./... 2>/dev/null" | python3 -c "
 import sys,json
 res={}
 for l in sys.stdin:
@@ -35,4 +36,5 @@ base=json.load(open('/root/.vp/BASELINE.json'))
 missing=[t for t in base['stable_pass'] if res.get(t)!='pass']
 print('suite_missing', len(missing), missing[:5])
 " > /tmp/confirm-$name.suite.log 2>&1
+rm -rf /tmp/confirm-home-$name
 echo "$name: demo_clean_exit=$clean demo_patched_exit=$patched $(cat /tmp/confirm-$name.suite.log)"
